@@ -157,6 +157,21 @@ Definition model_shared_state_tokens : list string :=
 Theorem shared_state_tokens_tie : impl_shared_state_tokens = model_shared_state_tokens.
 Proof. reflexivity. Qed.
 
+(* Runtime/Loop.v config: cfg_algs — each additional algorithm is kept with its NAME (a_name) and its
+   optional instance (a_inst); picking compares names *)
+Definition model_fields_AlgList : list string :=
+  ["head_name: String";
+   "head: Head";
+   "tail: Tail"].
+Theorem fields_AlgList_tie : impl_fields_AlgList = model_fields_AlgList.
+Proof. reflexivity. Qed.
+
+(* Runtime/Loop.v config: cfg_default *)
+Definition model_fields_AlgListNil : list string :=
+  ["H"].
+Theorem fields_AlgListNil_tie : impl_fields_AlgListNil = model_fields_AlgListNil.
+Proof. reflexivity. Qed.
+
 (* per file, so that each property depends on the files it is anchored in *)
 Theorem shared_state_lib : nth 0 impl_shared_state_tokens "" = "src/lib.rs: HashMap".
 Proof. reflexivity. Qed.
